@@ -8,6 +8,7 @@ import Driver.C12
 import Driver.Shard
 import Driver.Compact
 import Driver.Cluster
+import Driver.Query
 
 /-- one line in, one line out; the handler may carry state -/
 structure Handler where
@@ -26,6 +27,7 @@ def handlers : List (String × Handler) := [
   ("shard", ⟨InfluxVerif.ShardSpec.St, {}, Driver.ShardD.step⟩),
   ("compact", ⟨Driver.CompactD.St, {}, Driver.CompactD.step⟩),
   ("cluster", ⟨Driver.ClusterD.DSt, {}, Driver.ClusterD.step⟩),
+  ("query", ⟨Driver.QueryD.St, {}, Driver.QueryD.step⟩),
   ("hh", ⟨InfluxVerif.HH.Q, Driver.HHD.init 1024 100000, Driver.HHD.step⟩)
 ]
 
